@@ -136,4 +136,84 @@ func init() {
 		Assume:  pipeAssume,
 		Outside: "depth > 3; non-boolean marker values; list entries that are exactly {$output: b} (by construction a list marker, not a marked empty map); known finding C11-R1",
 	})
+
+	reg(propSpec{
+		ID: "C04",
+		Harnesses: []harnessSpec{
+			{Pkg: "bkl", Func: "HarnessC04_ints", Tiers: "qt", Covers: []string{"int.json", "int.yaml", "int.toml"},
+				Bound: "EVERY int64 n (one BV64 solver variable) through the JSON (json.Number), YAML (yaml.Node !!int) and TOML (int64) delivery contracts: normalize/yamlTranslateNode must yield Go int with value n"},
+			{Pkg: "bkl", Func: "HarnessC04_floats", Tiers: "qt", Covers: []string{"float.json", "float.yaml", "float.toml"},
+				Bound: "EVERY finite double x (one FP64 solver variable) through the three routes: must yield float64 equal to x"},
+			{Pkg: "bkl", Func: "HarnessC04_compare", Tiers: "qt", Covers: []string{"compare.checked"},
+				Bound: "all 9 format pairs for one symbolic integer: match(), useless-override detection in merge() and the $repeat count check (n in [0,2]) agree"},
+			{Pkg: "bkl", Func: "HarnessC04_mergekeys", Tiers: "qt", Covers: []string{"mergekey.single", "mergekey.list"},
+				Bound: "YAML mapping nodes with << (alias to a map / list of two aliases), keys {a,b,c}, local keys before or after the merge key: equals the expanded mapping"},
+		},
+		Assume: append([]string{
+			"decoder delivery contracts: JSON numbers arrive as json.Number(text), YAML scalars as yaml.Node{Tag,Value:text}, TOML numbers as int64/float64; text is an abstract numeric literal",
+			"strconv.ParseInt/ParseFloat and json.Number.Int64/Float64 on a numeric literal follow their documented contract (range check per bitSize; round-to-nearest-even to float32 for bitSize 32; an integer parser rejects a float literal)",
+			"(*yaml.Node).ShortTag returns the explicit tag (tag resolution from the text is the parser's job)",
+			"Go int is 64 bits",
+		}, stdAssume...),
+		Outside: "the three parsers themselves (that the same logical content in three syntaxes is delivered as stated); YAML hex/octal/underscore integer spellings; TOML dates; strings and containers (structure-preserving code paths are exercised by every other property)",
+	})
+	reg(propSpec{
+		ID: "C10",
+		Harnesses: []harnessSpec{
+			{Pkg: "bkl", Func: "HarnessC10_inline", Tiers: "qt", Covers: []string{"form.mapmerge", "form.replace", "form.listmerge", "inline.accepted", "inline.mergefails"},
+				Bound: "document {t:{x:T,\"p.q\":T2}, h:HOST, o:1}; T any tree of depth<=1 (quick) / 2 (thorough); 9 reference spellings (map $merge with dotted / list path / list path through a dotted key, map $replace, $merge: and $replace: strings, list-entry $merge / $replace, YAML flow-list path); local content any subset of {a,b}; compared with the hand-inlined twin through the same pipeline; the target's own output unchanged"},
+			{Pkg: "bkl", Func: "HarnessC10_cross", Tiers: "qt", Covers: []string{"cross.unique", "cross.ambiguous"},
+				Bound: "streams of 2-3 documents with ids; $merge/$replace in {$match,$path} and [pattern, path] form; zero, one or two matching documents"},
+			{Pkg: "bkl", Func: "HarnessC10_dangling", Tiers: "qt", Covers: []string{"dangling.checked"},
+				Bound: "6 dangling paths x 4 host forms"},
+		},
+		Assume:  pipeAssume,
+		Outside: "symbolic path strings; chains of references and references into $output:false templates (exercised concretely under C08_refs and C19); more than 3 documents",
+	})
+	reg(propSpec{
+		ID: "C12",
+		Harnesses: []harnessSpec{
+			{Pkg: "bkl", Func: "HarnessC12_doc", Tiers: "qt", Covers: []string{"repeat.zero", "repeat.some", "repeat.listdoc", "repeat.override"},
+				Bound: "document-level $repeat: n with n a symbolic int in [-1,5] (the loop bound is solver-decided), map and list documents, count supplied by an upper layer; body uses $repeat as value, in an interpolation and in a key"},
+			{Pkg: "bkl", Func: "HarnessC12_nested", Tiers: "qt", Covers: []string{"nested.list", "nested.map"},
+				Bound: "$repeat: n (n in [-1,4]) inside a list entry and inside a map entry with an interpolated key"},
+			{Pkg: "bkl", Func: "HarnessC12_named", Tiers: "qt", Covers: []string{"named.checked"},
+				Bound: "named counts x,y each in [-1,2] (quick) / [-1,3] plus optional third name (thorough): product, order, bindings"},
+			{Pkg: "bkl", Func: "HarnessC12_badcount", Tiers: "qt", Covers: []string{"badcount.checked"},
+				Bound: "any non-integer scalar as count at document, list-entry and map-entry level"},
+		},
+		Assume:  pipeAssume,
+		Outside: "counts > 5; more than 3 names; null counts (dropped like any null entry)",
+	})
+	reg(propSpec{
+		ID: "C13",
+		Harnesses: []harnessSpec{
+			{Pkg: "bkl", Func: "HarnessC13_interp", Tiers: "qt", Covers: []string{"interp.checked"},
+				Bound: "templates of 1-4 segments: literals of <= 2 (quick) / 3 (thorough) printable bytes without $ and { (closing braces, colons, quotes allowed), references to a scalar path (bool, int in [-9,9], token, symbolic string), to $env:FOO (every printable value of <= 2/3 bytes) and to a nested path"},
+			{Pkg: "bkl", Func: "HarnessC13_env", Tiers: "qt", Covers: []string{"env.checked", "env.key"},
+				Bound: "$env:NAME as whole value and as key; FOO every printable string of <= 4 (quick) / 6 (thorough) bytes outside region C13-K1; values that look like a bool and a number stay strings"},
+			{Pkg: "bkl", Func: "HarnessC13_missing", Tiers: "qt", Covers: []string{"missing.checked"},
+				Bound: "missing path / unset variable in interpolation, as value and as key"},
+		},
+		Assume:  pipeAssume,
+		Outside: "float formatting (%v of a symbolic double); literal segments containing {; known finding C13-K1 (environment values or results containing $$ or shaped like a directive)",
+	})
+	reg(propSpec{
+		ID: "C14",
+		Harnesses: []harnessSpec{
+			{Pkg: "bkl", Func: "HarnessC14_transforms", Tiers: "qt", Covers: []string{"transform.valid", "transform.invalid"},
+				Bound: "stacks of 1-2 (quick) / 1-3 (thorough) of {join:, join, prefix:p-, flatten, tolist:=, tolist::, values, flags} on lists (<=2), maps ({a,b} with scalar or list values), list of list, list of maps; elements: symbolic strings (<=2 bytes), 7, symbolic bool, empty string; result vs reference semantics, invalid operand kinds rejected"},
+			{Pkg: "bkl", Func: "HarnessC14_base64", Tiers: "qt", Covers: []string{"base64.checked"},
+				Bound: "$encode: base64 of EVERY $-free byte string of <= 4 (quick) / 6 (thorough) bytes equals an independent RFC 4648 encoder (bit-level formula over symbolic bytes)"},
+			{Pkg: "bkl", Func: "HarnessC14_codecs", Tiers: "qt", Covers: []string{"codec.sha256", "codec.base64", "codec.roundtrip"},
+				Bound: "8 concrete values: sha256 and base64 against crypto/sha256 and encoding/base64; $decode(f, $encode(f, v)) = v for json, yaml, toml"},
+			{Pkg: "bkl", Func: "HarnessC14_badargs", Tiers: "qt", Covers: []string{"badargs.checked"},
+				Bound: "13 malformed $encode arguments, 4 malformed $decode uses"},
+		},
+		Assume: append([]string{
+			"encoding/base64: real encoder on concrete bytes, exact RFC 4648 bit-level model on symbolic bytes for Std/URL/RawStd/RawURL; crypto/sha256 and encoding/hex: real functions on concrete bytes only",
+			"sort.Strings: insertion sort with solver-decided comparisons",
+		}, pipeAssume...),
+		Outside: "the bytes produced by the json/yaml/toml libraries (codec boundary; only the round trip through $decode is checked, on concrete values); sha256 of symbolic data",
+	})
 }
